@@ -280,7 +280,8 @@ def run(ctx):
         mod = core.module(rel)
         ctx.saw(mod, "genhkl_base"); ctx.saw(mod, "genhkl_unique")
         segs[short] = tables.extract_segm(rel)
-    same_tables = [(t["guard"], t["table"]) for t in segs["tools"]] == [(t["guard"], t["table"]) for t in segs["laue"]]
+    combos_all = sorted({(s.Laue, s.cell_choice, s.crystal_system) for s in settings})
+    same_tables = all(segs["tools"].table_key(*c) == segs["laue"].table_key(*c) for c in combos_all)
     todo = [("tools", "xfab/tools.py", "")] if same_tables else [("tools", "xfab/tools.py", ""), ("laue", "xfab/laue.py", ":laue")]
     if same_tables:
         ctx.note("cone tables of laue are identical to those of tools: the table verdicts hold for both")
@@ -288,14 +289,14 @@ def run(ctx):
     cache = {}
     for which, relname, sfx in todo:
         segm = segs[which]
-        ctx.floor("%s cone tables" % which, len(segm), 14)
+        ctx.floor("%s cone tables" % which, segm.count(settings), 13)
         # ---- dispatch + fundamental domain
         pairs = {}
         for s in settings:
             pairs.setdefault((s.Laue, s.cell_choice), []).append(s)
         box = ga.box(Nbox)
         for (laue, cc), members in sorted(pairs.items()):
-            hits = tables.select_segm(segm, laue, cc)
+            hits = tables.select_segm(segm, laue, cc, members[0].crystal_system)
             where = "%s:%d" % (relname, hits[0]["line"] if hits else 0)
             ctx.check(len(hits) == 1, "C06:dispatch:%s:%s%s" % (laue, cc, sfx),
                       "Laue class %r with cell_choice %r selects %d cone tables (settings: %s)" % (laue, cc, len(hits), [m.key for m in members][:3]),
@@ -406,44 +407,10 @@ def run(ctx):
             and steps[2][0][0] == steps[2][0][1] and steps[3][0][0] == steps[3][0][1]
         ctx.check(ok_steps, "C06:sort:%s:steps" % short,
                   "the walk does not advance by the cone generators g1 (row), g2 (plane), g3 (cone) of the current table: %s" % steps, where)
-        # genhkl_unique
-        fu = mod.func("genhkl_unique")
-        sgv = None
-        for n_ in ast.walk(fu):
-            if isinstance(n_, ast.Assign) and isinstance(n_.value, ast.Call) and isinstance(n_.value.func, ast.Attribute) \
-                    and n_.value.func.attr == "sg" and isinstance(n_.targets[0], ast.Name):
-                sgv = n_.targets[0].id
-        call = [n_ for n_ in ast.walk(fu) if isinstance(n_, ast.Call) and getattr(n_.func, "id", "") == "genhkl_base"]
-        okc = False
-        if len(call) == 1 and sgv:
-            c = call[0]
-            pos = [core.unparse(x).replace(" ", "") for x in c.args]
-            kw = {k.arg: core.unparse(k.value).replace(" ", "") for k in c.keywords}
-            sig = [a.arg for a in fn.args.args]
-            full = dict(zip(sig, pos))
-            full.update(kw)
-            okc = full == {"unit_cell": "unit_cell", "sysconditions": "%s.syscond" % sgv, "sintlmin": "sintlmin", "sintlmax": "sintlmax",
-                           "crystal_system": "%s.crystal_system" % sgv, "Laue_class": "%s.Laue" % sgv,
-                           "cell_choice": "%s.cell_choice" % sgv, "output_stl": "True"}
-        ctx.check(okc, "C06:unique:%s:base-call" % short,
-                  "genhkl_unique does not call genhkl_base with the looked-up group's syscond/crystal_system/Laue/cell_choice and output_stl=True",
-                  core.loc(mod, fu))
-        # slice the stl column off exactly when output_stl == False
-        oks2 = False
-        for n_ in ast.walk(fu):
-            if isinstance(n_, ast.If) and isinstance(n_.test, ast.Compare) and isinstance(n_.test.left, ast.Name) and n_.test.left.id == "output_stl":
-                tval = n_.test.comparators[0]
-                is_false = isinstance(tval, ast.Constant) and tval.value is False and isinstance(n_.test.ops[0], (ast.Eq, ast.Is))
-                is_true = isinstance(tval, ast.Constant) and tval.value is True and isinstance(n_.test.ops[0], (ast.Eq, ast.Is))
-                a_, b_ = (n_.body, n_.orelse) if is_false else (n_.orelse, n_.body) if is_true else (None, None)
-                if a_ and b_ and len(a_) == 1 and len(b_) == 1:
-                    m1 = core.match_stmt("return M_H[:, :3]", a_[0], {}, npa)
-                    m2 = core.match_stmt("return M_H", b_[0], dict(m1) if m1 else {}, npa)
-                    oks2 = bool(m1 and m2)
-        # genhkl_all is the union of the families: shared expansion rules (same as C05), reported under C06 keys
-        from props.c05 import analyse_expand
+        # genhkl_unique and genhkl_all: evaluated on a model group (props/hklwrap.py)
+        from props.hklwrap import analyse_unique, analyse_expand
+        analyse_unique(ctx, mod, short)
         analyse_expand(ctx, mod, short, pid="C06")
-        ctx.check(oks2, "C06:unique:%s:slice" % short, "the stl column is not removed exactly when output_stl == False", core.loc(mod, fu))
     ctx.not_decided += ["completeness of the walk for one real cell (see C05 early-exit findings)"]
     ctx.assumptions += ["C04 (first nuniq rotations are the point group)", "numpy argsort/concatenate"]
     return ("Cones of every Laue class proven a fundamental domain of the Laue group of each of the %d settings on all orbits "
